@@ -102,7 +102,10 @@ FIXED = ['', ' ', 'nan', 'inf', 'Infinity', 'NaN', '2 nan', 'm^nan', 'dam', 'dag
          '0 m', '0.0 kJ/mol', '-0.0 m', 'kg^2/kg', 'h', 'hh', 'ha', 'a', 'aa', 'u', 'uu', 'dm', 'dd', 'd', 'da', 'Y', 'YY',
          # negative magnitudes and powers
          '(-4)^0.5', '(-4)^(0.5)', '(-4)^0.5 m', '-4^0.5', '4.1-4^(-0.5)', '(-2 m)^0.5', '(-2 m)^3', '(-4)^2.0 m', '(-4)^2', '0^0.5',
-         '(-1 kJ/mol)^1.5', '-1^0.3333333', '3 * 4.1-4^(-0.5)  3*V', '(0-4)^0.5', '-0.0^0.5']
+         '(-1 kJ/mol)^1.5', '-1^0.3333333', '3 * 4.1-4^(-0.5)  3*V', '(0-4)^0.5', '-0.0^0.5',
+         # magnitudes outside the range of a double (guarded in the correspondence, still subject to the direct oracle)
+         '(kPa/F / Zhp^4)^4', 'dyn^220 klb', 'N dyn^4 12 * (u^20/dt s  BTU)', '0.5 mmin^4 (100 (torr * MA^-210 12)/psi)^(-2)*cal/2^-1',
+         '-3 t/(fu^4)^3', 'Ym^20', 'ym^20 Ym^20']
 
 
 def bounded(ctx):
@@ -146,8 +149,18 @@ Definition same (m i : ures qv) : bool :=
   | URaise TypeErr, URaise TypeErr | URaise UnitsErr, URaise UnitsErr => true
   | URaise NoOracle, _ => true     (* a host floating-point power the table does not contain: not comparable *)
   | _, _ => false end.
+(* guard: an expression some sub-expression of which has an exact magnitude outside the range of a double
+   (underflow to 0.0, overflow) is not comparable with the host's floating point *)
+Fixpoint subs (t : tree) : list tree :=
+  t :: match t with TMul a b | TDiv a b | TPow a b => subs a ++ subs b | _ => [] end.
+Definition edge : Q := inject_Z (Z.pow 10 290).
+Definition out_of_range (v : Q) : bool := negb (Qeq_bool v 0) && (Qle_bool (Qabs v * edge) 1 || Qle_bool edge (Qabs v)).
+Definition risky (t : str) : bool :=
+  match parse xspace xalpha t with
+  | UOk tr => existsb (fun s => match eval rpow prefixes the_db s with UOk x => out_of_range (qval x) | _ => false end) (subs tr)
+  | _ => false end.
 Fixpoint mism (i : nat) (l : list (str * ures qv)) : list nat :=
-  match l with [] => [] | (t, r) :: rest => if same (ev t) r then mism (S i) rest else i :: mism (S i) rest end.
+  match l with [] => [] | (t, r) :: rest => if same (ev t) r || risky t then mism (S i) rest else i :: mism (S i) rest end.
 '''
 
 
